@@ -4,9 +4,12 @@ import (
 	"bytes"
 	"fmt"
 	"os"
+	"os/exec"
 	"path/filepath"
 	"sort"
+	"strconv"
 	"strings"
+	"time"
 
 	"github.com/glycerine/zygomys/v9/zygo"
 
@@ -339,12 +342,114 @@ func c13history(c *engine.Ctx, hist []int, record bool) string {
 	return env.VerifLexerResidue()
 }
 
+// ---- the real REPL continuation loop: multi-line input on the standard input of cmd/zygo
+
+// ¶ marks a place where the text continues on the next line; each is replaced by 1, 2 and 3 newlines (0, 1, 2
+// completely empty lines).
+var c13replForms = []string{"`a¶b`", "`a¶b¶c`", "\"x¶y\"", "/* c¶d */ 7", "(list 1¶2)", "[1¶2¶3]", "(str `p¶q`)", "(concat \"a¶\" `b¶c`)", "(quote (a¶b))", "(hash k:¶1)", "(len `¶`)", "(list `u¶v` \"w¶x\" /* y¶z */ 1)", "(+ 1¶ /* q */ ¶2)"}
+
+func c13replTexts() []string {
+	var out []string
+	for _, f := range c13replForms {
+		n := strings.Count(f, "¶")
+		combos := 1
+		for i := 0; i < n; i++ {
+			combos *= 3
+		}
+		for m := 0; m < combos; m++ {
+			t, x := f, m
+			for i := 0; i < n; i++ {
+				t = strings.Replace(t, "¶", strings.Repeat("\n", 1+x%3), 1)
+				x /= 3
+			}
+			out = append(out, t)
+		}
+	}
+	return out
+}
+
+func c13repl(c *engine.Ctx, only string) {
+	bin := filepath.Join(os.TempDir(), fmt.Sprintf("c13zygo-%d", os.Getpid()))
+	built := false
+	defer func() {
+		if built {
+			os.Remove(bin)
+		}
+	}()
+	for _, t := range c13replTexts() {
+		w := "R|" + t
+		if !(only == "" && c.Mine() || only == w) {
+			continue
+		}
+		if !built {
+			cmd := exec.Command("go", "build", "-o", bin, "./cmd/zygo")
+			cmd.Dir = "/repo"
+			cmd.Env = append(os.Environ(), "GOFLAGS=-mod=mod", "GOPROXY=off")
+			if out, err := cmd.CombinedOutput(); err != nil {
+				c.Note("repl-cli", "could not build cmd/zygo: "+clipS(string(out), 200))
+				return
+			}
+			built = true
+		}
+		c.Begin(w)
+		// what the text means, evaluated whole
+		env := zygo.NewZlisp()
+		env.StandardSetup()
+		v, err := env.EvalString(t + "\n")
+		var accept []string
+		if err == nil && v != nil {
+			if str, isStr := v.(*zygo.SexpStr); isStr {
+				accept = []string{"`" + str.S + "`", strconv.Quote(str.S)}
+			} else {
+				accept = []string{v.SexpString(nil)}
+			}
+		}
+		env.Close()
+		if accept == nil {
+			c.Count("repl_texts_not_evaluable", 1)
+			continue
+		}
+		cm := exec.Command(bin, "-quiet", "-no-liner", "-sandbox")
+		cm.Stdin = strings.NewReader(t + "\n")
+		var buf bytes.Buffer
+		cm.Stdout, cm.Stderr = &buf, &buf
+		done := make(chan error, 1)
+		if err := cm.Start(); err != nil {
+			c.Note("repl-cli", err.Error())
+			return
+		}
+		go func() { done <- cm.Wait() }()
+		select {
+		case <-done:
+		case <-time.After(30 * time.Second):
+			cm.Process.Kill()
+			<-done
+		}
+		c.Count("repl_runs", 1)
+		// strip the prompts and the final EOF line
+		out := buf.String()
+		out = strings.ReplaceAll(out, "zygo> ", "")
+		out = strings.ReplaceAll(out, "... ", "")
+		out = strings.TrimSuffix(out, "EOF\n")
+		out = strings.TrimSuffix(out, "\n")
+		ok := false
+		for _, a := range accept {
+			ok = ok || out == a
+		}
+		if !ok {
+			c.Violation("repl-continuation", "C13/repl-continuation/"+clipS(strings.ReplaceAll(t, "\n", "¶"), 30), w, fmt.Sprintf("text %q typed line by line at the REPL prints %q; evaluated whole it is %q", t, out, accept[0]))
+		}
+		c.Outcome("R|" + t + "|" + out)
+	}
+}
+
 func init() {
 	engine.Register(&engine.Check{
 		ID:    "C13",
 		Level: "fault_enumeration",
 		Rule: "texts = the 110 corpus scripts + a hand list + every string of <=3 (thorough 4) tokens over a 40-token alphabet joined with and without blanks; for every text: whole parse, parse with a trailing newline, " +
 			"pause-iff-unfinished against an independent prefix scanner, every 1-cut (all rune positions) and, for texts <=60 runes (thorough 200), every 2-cut, pieces delivered only when the parser pauses (REPL protocol); " +
+			"plus 13 multi-line forms (raw strings, strings, block comments, lists, infix) with 0, 1 or 2 empty lines at every line break, typed into the real REPL loop of cmd/zygo on stdin and compared with the whole-text evaluation; " +
 			"plus BFS over histories of 24 residue-leaving inputs (depth 3, thorough 4) with 10 probe texts compared against a fresh interpreter, states keyed by the lexer/parser residue; distinct_nontrivial = distinct (result kind, expression list) of texts",
 		Assumptions: []string{"a cut at which the parser does not pause is a complete prefix and is judged as a text of its own, not by the chunking clause",
 			"pause-iff is not judged for texts ending inside a character literal or with mismatched brackets, nor for texts that raise a hard error"},
@@ -385,9 +490,13 @@ func init() {
 				return c13history(c, h, record), true
 			}}
 			b.Run(c)
+			c13repl(c, "")
 		},
 		Replay: func(c *engine.Ctx, w string) {
-			if strings.HasPrefix(w, "H|") {
+			if strings.HasPrefix(w, "R|") {
+				c.NWorkers = 1
+				c13repl(c, w)
+			} else if strings.HasPrefix(w, "H|") {
 				var hist []int
 				for _, f := range strings.Fields(strings.Trim(w[2:], "[]")) {
 					var x int
